@@ -17,7 +17,7 @@ class Job:
     def __init__(self, name, template, bodies=(), enforce=None, harness=None, replace=(),
                  loop_contracts=False, unwind=None, defines=(), cbmc_flags=(), min_obligations=1,
                  bounded=False, timeout=None, backend=None, checks=True, vacuity=True,
-                 object_bits=None, note=None, expect_labels=()):
+                 object_bits=None, note=None, expect_labels=(), needs=None):
         self.name = name
         self.template = template
         self.bodies = list(bodies)
@@ -37,16 +37,29 @@ class Job:
         self.object_bits = object_bits
         self.note = note
         self.expect_labels = list(expect_labels)
+        self.needs = needs  # names of the bodies this job depends on (None = all)
 
 
 def _sh(cmd, timeout, cwd=None):
+    """Run a shell command in its own process group; on timeout kill the whole group
+    (cbmc spawns the SMT solver as a child, which would otherwise survive)."""
+    import signal
     t0 = time.time()
+    p = subprocess.Popen("ulimit -v %d; %s" % (MEM_KB, cmd), shell=True, cwd=cwd, stdout=subprocess.PIPE, stderr=subprocess.PIPE,
+                         text=True, executable="/bin/bash", start_new_session=True)
     try:
-        p = subprocess.run("ulimit -v %d; %s" % (MEM_KB, cmd), shell=True, cwd=cwd, capture_output=True, text=True,
-                           timeout=timeout, executable="/bin/bash")
-        return p.returncode, p.stdout, p.stderr, time.time() - t0
-    except subprocess.TimeoutExpired as e:
-        return -9, (e.stdout or b"").decode() if isinstance(e.stdout, bytes) else (e.stdout or ""), "timeout", time.time() - t0
+        so, se = p.communicate(timeout=timeout)
+        return p.returncode, so, se, time.time() - t0
+    except subprocess.TimeoutExpired:
+        try:
+            os.killpg(p.pid, signal.SIGKILL)
+        except OSError:
+            pass
+        try:
+            p.communicate(timeout=5)
+        except Exception:
+            pass
+        return -9, "", "timeout", time.time() - t0
 
 
 def build_c(ctx, job):
@@ -63,8 +76,12 @@ def build_c(ctx, job):
     for b in job.bodies:
         b = dict(b)
         name = b.pop("name")
-        ex = X.extract(ctx.repo, name, **b)
         marker = "//@BODY %s\n" % name
+        if job.needs is not None and name not in job.needs:
+            # another function of the shared template: not part of this job (its own job extracts and checks it)
+            tpl = tpl.replace(marker, "{ /* body of %s: not used by this job */ }\n" % name)
+            continue
+        ex = X.extract(ctx.repo, name, **b)
         if marker not in tpl:
             raise X.ExtractionDrift("template %s has no marker for body %s" % (job.template, name))
         tpl = tpl.replace(marker, ex.text + "\n")
@@ -122,20 +139,37 @@ def cbmc_pipeline(ctx, job, cfile, vac):
     else:
         b = a
         t2 = 0
-    flags = ["--json-ui", "--trace"]
+    base_flags = ["--json-ui", "--trace"]
     if job.checks:
-        flags += ["--bounds-check", "--pointer-check", "--div-by-zero-check", "--signed-overflow-check", "--conversion-check"]
+        base_flags += ["--bounds-check", "--pointer-check", "--div-by-zero-check", "--signed-overflow-check", "--conversion-check"]
     if job.unwind:
-        flags += ["--unwind %d" % job.unwind, "--unwinding-assertions"]
+        base_flags += ["--unwind %d" % job.unwind, "--unwinding-assertions"]
     if job.object_bits:
-        flags += ["--object-bits %d" % job.object_bits]
-    if job.backend:
-        flags.append(job.backend)
-    flags += job.cbmc_flags
+        base_flags += ["--object-bits %d" % job.object_bits]
+    base_flags += job.cbmc_flags
     out = base + ".cbmc.json"
-    cmd3 = "cbmc %s %s > %s" % (b, " ".join(flags), out)
-    rc, so, se, t3 = _sh(cmd3, tmo)
-    cmds.append(cmd3)
+    # back-end portfolio: the job names one back end or a list tried in order (a timeout or an unreadable answer moves on)
+    backends = job.backend if isinstance(job.backend, (list, tuple)) else [job.backend]
+    t3 = 0.0
+    rc = -9
+    used = None
+    for bi, be in enumerate(backends):
+        flags = base_flags + ([be] if be else [])
+        share = tmo if len(backends) == 1 else max(20, int(tmo * (0.5 if bi == 0 else 0.5 / (len(backends) - 1))))
+        cmd3 = "cbmc %s %s > %s" % (b, " ".join(flags), out)
+        rc, so, se, t = _sh(cmd3, share)
+        t3 += t
+        cmds.append(cmd3)
+        if rc != -9:
+            try:
+                d = json.load(open(out))
+                if any("result" in e for e in d):
+                    used = be
+                    break
+            except Exception:
+                pass
+            rc = -9 if bi + 1 < len(backends) else rc
+    job.used_backend = used
     for f in (a, base + ".b.gb"):
         try:
             os.remove(f)
@@ -213,7 +247,8 @@ def run_job(ctx, job):
         return [Obligation(prefix + "/*", UNDECIDED, "extract", 0, "extraction drift: %s" % e, bounded=job.bounded)], [], [], []
     lab = labels_of(cfile)
     data, err, t, cmds = cbmc_pipeline(ctx, job, cfile, bool(job.vacuity))
-    backend = "cbmc-6.11/" + (job.backend.strip("-") if job.backend else "sat")
+    ub = getattr(job, "used_backend", None)
+    backend = "cbmc-6.11/" + (ub.replace("--sat-solver ", "").strip("-") if ub else "sat")
     if data is None:
         return [Obligation(prefix + "/*", UNDECIDED, backend, t, err, bounded=job.bounded)], descs, [], cmds
     results, msgs, verdict = parse_results(data)
